@@ -16,6 +16,12 @@ pub fn eval_real(tl: &PTimeline, t: f32, init: &P) -> P {
     p
 }
 
+/// `eval_real` under catch_unwind: None if `Timeline::update` panicked (reported as a violation by the
+/// callers - a panic produces no value at all).
+pub fn try_eval_real(tl: &PTimeline, t: f32, init: &P) -> Option<P> {
+    std::panic::catch_unwind(std::panic::AssertUnwindSafe(|| eval_real(tl, t, init))).ok()
+}
+
 /// Compares one evaluation with the reference output; returns the first mismatch description.
 pub fn compare(got: &P, init: &P, want: &RefOut, rt: &RefTl, start: Option<&P>) -> Result<(), String> {
     let sc = |p: &RefProp, s: Option<f64>| p.scale.max(s.map(|x| x.abs()).unwrap_or(0.0));
@@ -132,4 +138,96 @@ pub fn compare_tight(name: &str, got: f64, want: f64, int: bool, ulps: f64) -> R
 /// (same positions, easings and f32-representable values), so the f64 path is enumerated too.
 pub fn remap_a_to_d(kfs: &[Kf]) -> Vec<Kf> {
     kfs.iter().map(|k| Kf { pos: k.pos, a: None, k: k.k, d: k.a.map(|v| v as f64 * 0.5), easing: k.easing }).collect()
+}
+
+// ------------------------------------------------------------------------------------------------
+// "Wide" and "tall" families: keyframe counts far above the small-scope bound T(n), structured so that
+// every position, sample time and expected value is still exact in f32. They exist because index
+// arithmetic (per-property index maps, frame lookup, any narrowed or estimated index) only goes wrong
+// beyond a certain count or for uneven spacing - which a bound of 5 keyframes can never show.
+
+fn zig(i: u32) -> f32 {
+    ((i.wrapping_mul(37)) % 64) as f32 * 2.0 - 64.0 + (i / 64) as f32
+}
+
+/// 2^j + 1 keyframes at the positions i / 2^j. Pattern 0: `a` on every keyframe (zig-zag values), `k` on
+/// every third, `d` on every fifth; pattern 1: `a` on the even keyframes only, `k` on every keyframe.
+/// Per-keyframe easings x^2 / 1-(1-x)^2 on a fixed sub-pattern, default easing Linear.
+pub fn wide_spec(j: u32, pattern: u8, timing: Timing) -> TlSpec {
+    let n = 1u32 << j;
+    let kfs = (0..=n)
+        .map(|i| {
+            let pos = i as f32 / n as f32;
+            let easing = match i % 8 {
+                1 => Some(1u8),
+                6 => Some(2u8),
+                _ => None,
+            };
+            if pattern == 0 {
+                Kf {
+                    pos,
+                    a: Some(zig(i)),
+                    k: if i % 3 == 0 { Some(((i.wrapping_mul(7919)) % 2001) as i32 - 1000) } else { None },
+                    d: if i % 5 == 0 { Some((i % 17) as f64 * 0.5 - 3.0) } else { None },
+                    easing,
+                }
+            } else {
+                Kf { pos, a: if i % 2 == 0 { Some(zig(i / 2)) } else { None }, k: Some(((i.wrapping_mul(31)) % 512) as i32 - 256), d: None, easing }
+            }
+        })
+        .collect();
+    TlSpec { kfs, default_easing: 0, timing }
+}
+
+/// The two timing configurations of the wide/tall families and, for a position q in [0,1], the exact
+/// times at which the timeline is at q (forward pass; and the reverse pass of the reversing one).
+pub fn wide_timings() -> [Timing; 2] {
+    [Timing::new(1.0, 0.0, Rep::None, false), Timing::new(2.0, 0.25, Rep::Times(1), true)]
+}
+
+pub fn wide_times(timing: &Timing, q: f32) -> Vec<f32> {
+    if timing.reverse {
+        // first cycle forward and backward, second cycle forward
+        vec![timing.delay + q * timing.cycle / 2.0, timing.delay + timing.cycle - q * timing.cycle / 2.0, timing.delay + timing.cycle + q * timing.cycle / 2.0]
+    } else {
+        vec![timing.delay + q * timing.cycle]
+    }
+}
+
+/// Sample positions of a wide timeline: every keyframe position and every segment midpoint.
+pub fn wide_positions(j: u32) -> impl Iterator<Item = f32> {
+    let n2 = 1u32 << (j + 1);
+    (0..=n2).map(move |i| i as f32 / n2 as f32)
+}
+
+/// Every subset (size >= 2) of the 9-point grid {0,1/8,..,1} as the position list of one timeline ("tall":
+/// up to 9 keyframes, all spacings incl. very uneven ones), two content patterns.
+pub fn tall_specs(timing: Timing) -> Vec<TlSpec> {
+    let mut v = vec![];
+    for mask in 0u32..512 {
+        if mask.count_ones() < 2 {
+            continue;
+        }
+        for pattern in 0..2u8 {
+            let mut kfs = vec![];
+            let mut ord = 0u32;
+            for b in 0..9u32 {
+                if mask & (1 << b) == 0 {
+                    continue;
+                }
+                let pos = b as f32 / 8.0;
+                let easing = match (ord + pattern as u32) % 3 {
+                    1 => Some(1u8),
+                    2 => Some(2u8),
+                    _ => None,
+                };
+                let a = if pattern == 0 || ord % 2 == 0 { Some(zig(ord * 5 + b)) } else { None };
+                let k = if pattern == 1 || ord % 2 == 1 { Some((b as i32 * 37 % 100) * 10 - 400) } else { None };
+                kfs.push(Kf { pos, a, k, d: if pattern == 1 && b % 3 == 0 { Some(b as f64 * 1.5) } else { None }, easing });
+                ord += 1;
+            }
+            v.push(TlSpec { kfs, default_easing: if mask % 2 == 0 { 0 } else { 3 }, timing });
+        }
+    }
+    v
 }
